@@ -112,6 +112,26 @@ def build(inp) -> Case:
         lines.append(line("rel", kind="same", a=il(c0k), b=il(ca)))
     # ---- thresholds, EER, AUC: relations between two real runs
     scale = max([1.0] + [abs(x) for x in pos + neg])
+    # integer-dtype objects and the lower/higher methods under an affine map (a, b integers so that
+    # the image is integer-valued as well): every method's threshold must be mapped by t -> a*t+b
+    if all(x == round(x) for x in pos + neg) and pos and neg:
+        ai, bi = int(max(1, round(a))) * 2, int(round(b)) + 1
+        si = Scores(np.array(pos, dtype=int), np.array(neg, dtype=int), nb_easy_pos=ep, nb_easy_neg=en,
+                    score_class=sc, equal_class=ec)
+        sj = Scores(ai * np.array(pos, dtype=int) + bi, ai * np.array(neg, dtype=int) + bi, nb_easy_pos=ep,
+                    nb_easy_neg=en, score_class=sc, equal_class=ec)
+        for metric in gen.METRICS:
+            for meth in gen.METHODS:
+                for r in list(inp["rs"]) + [0.0, 1.0]:
+                    u0 = common.call(getattr(si, "threshold_at_" + metric), r, method=meth)
+                    u1 = common.call(getattr(sj, "threshold_at_" + metric), r, method=meth)
+                    if u0[0] == "exc" or u1[0] == "exc":
+                        pre.append(Issue("PROPFAIL", "raises", f"threshold_at_{metric}({r},{meth}) on int scores raised: {u0[1:]} {u1[1:]}", f"thr/{metric}/raises"))
+                        continue
+                    t0, t1 = float(u0[1]), float(u1[1])
+                    if abs(t1 - (ai * t0 + bi)) > ai * _ulps(t0) + _ulps(t1) + 1e-12 * scale * ai:
+                        pre.append(Issue("PROPFAIL", "affine-threshold", f"int scores, threshold_at_{metric}({r},{meth}): original {t0}, "
+                                         f"image under {ai}*s+{bi} gives {t1}, expected {ai*t0+bi}", f"thr/{metric}/affine-int"))
     for metric in gen.METRICS:
         arr_empty = (len(pos) == 0 and metric in ("tpr", "fnr")) or (len(neg) == 0 and metric in ("tnr", "fpr")) \
             or (len(pos) + len(neg) == 0)
